@@ -4,6 +4,7 @@ import (
 	"fmt"
 	"math"
 	"os"
+	"sync"
 	"testing"
 
 	"go.1password.io/spg"
@@ -19,7 +20,7 @@ func TestMain(m *testing.M) {
 	ev.SetProperty(os.Getenv("VERIF_PROPERTY"))
 	switch os.Getenv("VERIF_PROPERTY") {
 	case "C16": // checks the class contents against the documented constants
-	case "C09", "C15": // their first sub-check must be the first use of the library in the process; they learn afterwards
+	case "C09", "C15", "C14": // the first use of the library in the process belongs to the check itself (first-call sub-checks; concurrent first use in C14); they learn afterwards
 	default:
 		learnClasses()
 	}
@@ -31,6 +32,10 @@ func TestMain(m *testing.M) {
 // class alone). Which characters a class has is C16's statement, checked
 // there against the documented constants; every other check is about what
 // is done WITH the classes and must not fire when only their content changed.
+var learnOnce sync.Once
+
+func learnClassesOnce() { learnOnce.Do(learnClasses) }
+
 func learnClasses() {
 	defer func() { recover() }() // a library that cannot answer leaves the documented contents in place
 	for _, f := range oracle.ClassOrder {
